@@ -929,7 +929,9 @@ def load_from_long_to_dataframe(full_file_path_and_name, separator=","):
             "one or more data columns contains data of an incorrect type"
         )
 
-    data = from_long_to_nested(data)
+    data = from_long_to_nested(
+        data, column_names=_make_column_names(data.iloc[:, 1].nunique())
+    )
     return data
 
 
